@@ -288,7 +288,7 @@ def history_lemmas(reg, tier):
     out = []
 
     def lemma(name, hyps, goal, order=True):
-        r = solve.discharge(VC(f'{PROPERTY}:lemma:{name}', (ORDER if order else []) + hyps, goal, kind='lemma'), 20000)
+        r = solve.discharge_fresh(VC(f'{PROPERTY}:lemma:{name}', (ORDER if order else []) + hyps, goal, kind='lemma'), 30000)
         out.append(r)
 
     lemma('L0a-prefix-order-is-reflexive', [], z3.PrefixOf(x_, x_), order=False)
